@@ -81,7 +81,10 @@ def to_coq_case(rec):
             t = "(OAlloc %s %s)" % (_zs(op["coins"]), _z(op["n"]))
         else:
             t = "OOther"
-        steps.append("(%s, %s)" % (t, _sobs(o)))
+        vs = "[%s]" % "; ".join(
+            "mkAVote %d [%s]" % (v["voter"], "; ".join("(%d, %s)" % (tu["p"], _z(tu["r"])) for tu in v["t"]))
+            for v in o.get("votes") or [])
+        steps.append("(%s, %s, %s)" % (t, _sobs(o), vs))
     return "(mkCase %s [%s])" % (q, ";\n     ".join(steps))
 
 
@@ -119,6 +122,11 @@ def _flags(rec):
                 fl.add("miss-counted")
         if len(o["rewards"]) > 1:
             fl.add("overlapping-allocations")
+        if op["k"] == "end" and (o["h"] + 1) % vp == 0 and not o["panic"]:
+            if op.get("votes") and not o["paid"] and not any(True for _ in []):
+                pass
+        if op["k"] == "end" and o.get("votes"):
+            fl.add("votes-kept-mid-period")
         prev_miss = o["miss"]
     return fl
 
